@@ -47,7 +47,7 @@ class C06(Check):
     level_text = ('Seeded search over table-building histories interleaved with request streams; per table the full '
                   'paths x methods catalogue is swept at least once. The table/history space is sampled.')
     level_note = 'Trusted: the sequential dispatch model (~40 lines) and the catalogue match relation.'
-    required_probes = ('concurrent-requests', 'add-concurrent-with-request', '405-with-allow', 'fallthrough-then-later-route', 'fallthrough-last-error-wins', 'add-at-index', 'add-at-index-below-range', 'add-at-negative-index',
+    required_probes = ('debug-application', 'concurrent-requests', 'add-concurrent-with-request', '405-with-allow', 'fallthrough-then-later-route', 'fallthrough-last-error-wins', 'add-at-index', 'add-at-index-below-range', 'add-at-negative-index',
                        'head-on-get-route', 'lowercase-method', 'redirect-302', 'strict-mode')
 
     def gen_entry(self, rng, mode, k):
@@ -104,7 +104,9 @@ class C06(Check):
             else:
                 ops.append({'op': 'req', 'path': rng.choice(R.PATHS), 'method': rng.choice(R.METHODS)})
         ops.append({'op': 'sweep'})
-        return {'world': 'routing-table', 'seed': seed, 'config': {'mode': mode, 'ctor': ctor}, 'ops': ops}
+        accepts = [c.choice([None, None, 'text/html', 'application/json', 'application/xml', '*/*', 'text/plain']) for _ in range(c.randint(1, 5))]
+        return {'world': 'routing-table', 'seed': seed,
+                'config': {'mode': mode, 'ctor': ctor, 'debug': c.random() < 0.35, 'accepts': accepts}, 'ops': ops}
 
     def execute(self, plan):
         res = RunResult()
@@ -114,16 +116,26 @@ class C06(Check):
         table = [dict(e, mode=mode, prefix='') for e in cfg['ctor']]
         shared = R.make_shared_errors()      # pre-built error objects that several routes of this table return
         try:
-            app = Application([make_route(e, shared) for e in cfg['ctor']], slash_mode=mode)
+            # debug: the application renders its errors with the contextual (debug) handler, for clients that ask for
+            # html / json / xml (the Accept header of each request is part of the plan)
+            app = Application([make_route(e, shared) for e in cfg['ctor']], slash_mode=mode, **({'debug': True} if cfg.get('debug') else {}))
         except Exception as e:
             res.violate(K + 'setup-failed:%s' % type(e).__name__, '%r %s' % (e, canon(cfg)))
             return res
         if mode == 'strict':
             res.probe('strict-mode')
 
+        accepts = cfg.get('accepts') or [None]
+        if cfg.get('debug'):
+            res.probe('debug-application')
+
+        def env_for(method, path, k):
+            a = accepts[(k if isinstance(k, int) else 0) % len(accepts)]
+            return make_environ(method, path, headers={'Accept': a} if a else {})
+
         def one(path, method, step):
             exp = R.dispatch_model(table, path, method)
-            ex = call_app(app, make_environ(method, path), validate=False)
+            ex = call_app(app, env_for(method, path, step), validate=False)
             got = R.observe(ex)
             bad = R.compare(exp, got)
             shape = self.shape(exp, table, path, method)
@@ -175,7 +187,7 @@ class C06(Check):
                 got = {}
                 tasks = {}
                 for i, rq in enumerate(op['reqs']):
-                    tasks['T%d' % i] = (lambda i=i, rq=rq: got.__setitem__(i, call_app(app, make_environ(rq['method'], rq['path']), validate=False)))
+                    tasks['T%d' % i] = (lambda i=i, rq=rq: got.__setitem__(i, call_app(app, env_for(rq['method'], rq['path'], step + i), validate=False)))
                 sched = BatonScheduler(op.get('order', sorted(tasks)), op.get('preempts', []), op.get('granularity', 'line'), WATCH)
                 sched.run(tasks)
                 res.fire('preempt', len(sched.switches))
@@ -216,7 +228,7 @@ class C06(Check):
                         out['add_exc'] = ex
 
                 def do_req():
-                    out['ex'] = call_app(app, make_environ(op['req']['method'], op['req']['path']), validate=False)
+                    out['ex'] = call_app(app, env_for(op['req']['method'], op['req']['path'], step), validate=False)
                 sched = BatonScheduler(op.get('order', ['A', 'R']), op.get('preempts', []), op.get('granularity', 'line'), WATCH)
                 sched.run({'A': do_add, 'R': do_req})
                 res.fire('preempt', len(sched.switches))
